@@ -124,6 +124,15 @@ def gen_trees(ctx):
     trees += [("neg", L("B5")), ("neg", ("neg", L("I5"))), ("bin", "div", L(nc.f2bits(1.5)), L("Y0")),
               ("bin", "rem", ("bin", "sub", ("neg", L("I2147483647")), L("I1")), ("neg", L("I1"))),
               ("neg", L("I2147483648")), ("neg", ("bin", "sub", ("neg", L("I2147483647")), L("I1"))),
+              # MIN op -1 of both integer kinds: the quotient / product / difference is not representable
+              ("bin", "div", ("bin", "sub", ("neg", L("I2147483647")), L("I1")), ("neg", L("I1"))),
+              ("bin", "mul", ("bin", "sub", ("neg", L("I2147483647")), L("I1")), ("neg", L("I1"))),
+              ("bin", "div", ("bin", "sub", ("neg", L("B%d" % nc.I128_MAX)), L("B1")), ("neg", L("B1"))),
+              ("bin", "rem", ("bin", "sub", ("neg", L("B%d" % nc.I128_MAX)), L("B1")), ("neg", L("B1"))),
+              ("bin", "mul", ("bin", "sub", ("neg", L("B%d" % nc.I128_MAX)), L("B1")), ("neg", L("B1"))),
+              ("neg", ("bin", "sub", ("neg", L("B%d" % nc.I128_MAX)), L("B1"))),
+              ("bin", "div", ("bin", "sub", ("neg", L("I2147483647")), L("I1")), ("neg", L("B1"))),
+              ("list", [("neg", ("bin", "sub", ("neg", L("I2147483647")), L("I1")))]),
               ("bin", "add", ("neg", ("neg", L("I5"))), L("I1")), ("neg", ("neg", L(nc.f2bits(1.5)))),
               ("bin", "add", L("I2147483647"), L("I1")), ("bin", "add", L("I2147483648"), L("I1")),
               ("bin", "shl", L("I1"), ("neg", L("I0"))), ("bin", "div", L("I1"), ("neg", L(nc.f2bits(0.0)))),
